@@ -18,7 +18,7 @@ def main():
             r = verify_function(c, repo)
         print(f'== {c.name()}  status={r.status} paths={r.paths} vcs={len(r.vcs)} t={r.time:.2f}s {r.detail}')
         for vc in r.vcs:
-            flag = {'discharged': 'ok ', 'refuted': 'REFUTED', 'unknown': 'unknown'}[vc.status]
+            flag = {'discharged': 'ok ', 'refuted': 'REFUTED', 'unknown': 'unknown', None: 'none'}[vc.status]
             if vc.status != 'discharged' or '-v' in sys.argv:
                 print(f'   [{flag}] {vc.kind:10s} {vc.name}  ({vc.backend}, {vc.time:.3f}s) path={vc.path} {vc.reason}')
                 if vc.model is not None and '-m' in sys.argv:
